@@ -337,6 +337,7 @@ def run_vacuity(g, meta):
         req = ",\n".join(t.rstrip().rstrip(",") for _, t in ctr.requires)
         req = re.sub(r"old\(\s*self\s*\)", "s_", req)
         req = re.sub(r"\bself\b", "s_", req)
+        req = re.sub(r"\*\s*old\(\s*(\w+)\s*\)", r"\1", req)   # `&mut T` params are passed by value here
         req = re.sub(r"old\(\s*(\w+)\s*\)", r"\1", req)
         nm = "vacuity_" + re.sub(r"\W+", "_", key)
         names.append((nm, key))
